@@ -65,6 +65,14 @@ def arg_pool():
         ("downsample_grid", (x6, y6), {"samples": 3}, "kw-samples"),
         ("downsample_grid", (x6, y6, 3, False, True), {}, "ret_idx"),
         ("downsample_grid", (big[::2][:6], big[1::2][:6], 3), {}, "strided"),
+        # same values bound to different parameters
+        ("downsample_grid", (x6, y6, 3), {"remove_invalid": True},
+         "kw remove_invalid=True"),
+        ("downsample_grid", (x6, y6, 3), {"ret_idx": True},
+         "kw ret_idx=True"),
+        ("downsample_grid", (x6, y6, 3, True), {}, "pos remove_invalid=True"),
+        ("downsample_grid", (x6, y6), {"samples": 3, "ret_idx": True},
+         "kw samples+ret_idx"),
         ("downsample_grid", (x6, y6, 1, 0), {}, "samples=1,remove_invalid=0"),
         ("downsample_grid", (x6, y6, 10), {}, "samples=10"),
     ]
